@@ -70,6 +70,7 @@ type c05sIO struct {
 	bad   string                 // harness-level problem (far side cannot parse)
 	block chan struct{}          // ReceiveMessage blocks on it
 	blen  int                    // len(buf) of the last call (the sender's buffer; MaxUDPSize in the code)
+	long  *c05lRun               // non-nil: long-operation mode (c05lRun below), nothing is recorded per call
 }
 
 func (io *c05sIO) begin(resp [][2]int) {
@@ -79,6 +80,9 @@ func (io *c05sIO) begin(resp [][2]int) {
 }
 
 func (io *c05sIO) SendMessage(buf []byte, m *protocol.UDPMessage) error {
+	if io.long != nil {
+		return io.long.sendMessage(buf, m)
+	}
 	idx := len(io.calls)
 	r := io.resp[len(io.resp)-1]
 	if idx < len(io.resp) {
@@ -394,6 +398,292 @@ func c05sRun(raw json.RawMessage, io *c05sIO, send func(i int, data []byte, addr
 	}
 	res["steps"] = steps
 	res["buf"] = io.blen
+	res["ok"] = ok
+	res["why"] = why
+}
+
+// ---------------------------------------------------------------------------------------------------
+// Long operation: ONE history of more than 65536 fragmented sends through the real send path.
+//
+// Every message is tiny and is refused whole (limit L below its size), so every send draws a packet id.
+// Nothing is recorded per call; per send the mechanism is checked on the fly (whole first, refusal, then
+// exactly the fragments 0..cnt-1 of one id, concatenating to the payload, each <= L; a lossless far-side
+// Defragger returns the message once, byte-identical) and the packet id is appended to the id sequence.
+//
+// Verdict on the id sequence (implementation alone).  The property's "distinct packet ids of messages in
+// flight" is what the id generator has to provide; with the horizon W (at most W fragmented messages of one
+// session in flight / reorderable at a time) it reads: among any W consecutive fragmented messages of a
+// session no two carry the same id, and the id is never 0.  The code on this tree draws the id at random
+// (uniform on 1..65535), so an honest repeat has probability 1/65535 per pair and over > 65536 sends some
+// repeats within the horizon are EXPECTED (about (W-1)*n/65535 of them).  The verdict therefore is:
+//
+//   (z)  an id 0 on a fragment: always a violation (probability 0 for the honest code);
+//   (r)  for some lag d < W the number X_d of positions i with id[i] == id[i+d] reaches thr: for independent
+//        uniform ids the indicators of one lag are mutually independent (id[i+d] is fresh with respect to
+//        everything before it), X_d ~ Binomial(n-d, 1/65535), so P(X_d >= thr) <= (n/65535)^thr / thr! and the
+//        union over the W-1 lags stays below the bound the generator (vlib/props/C05.py long_thr) asked for;
+//   (d)  the id sequence is CYCLIC (some period P: id[i] == id[i-P] for >= 90% of the positions i >= P, at
+//        least 256 of them - for independent uniform ids the probability of that is below 2^-3000), i.e. the
+//        ids come from a deterministic generator that has gone round at least once inside this history, and
+//        the sequence has a repeat within the horizon: this repeat is not chance, it recurs on every cycle.
+//
+// For the demonstration the same fragments also go through a second Defragger behind a channel that loses
+// complementary fragments (message i keeps only fragment i mod cnt): no message is ever complete there, and
+// every payload that Defragger returns was never sent (reported as "chimeras"; informational for honest
+// random ids - expected about n/65535 - and part of the replay when (d) fires).
+
+type c05lCase struct {
+	K      string `json:"k"`
+	Side   string `json:"side"`
+	Sid    uint32 `json:"sid"`
+	N      int    `json:"n"`
+	W      int    `json:"w"`
+	Thr    int    `json:"thr"`
+	L      int    `json:"lim"`
+	Al     int    `json:"al"`
+	Aa     uint64 `json:"aa"`
+	Ab     uint64 `json:"ab"`
+	Dls    []int  `json:"dls"` // payload sizes, cycled
+	Da     uint64 `json:"da"`
+	Db     uint64 `json:"db"`
+	Sample int    `json:"sample"`
+}
+
+type c05lRun struct {
+	sid  uint32
+	lim  int
+	addr string
+	data []byte // payload of the current send
+	// per send
+	ncall   int
+	pid     uint16
+	cnt     int
+	next    int
+	cat     []byte
+	emitted int
+	bad     string // first mechanism problem of the whole history
+	step    int
+	far     *frag.Defragger // lossless
+	lossy   *frag.Defragger // complementary loss
+	chim    int
+	chimAt  int
+	chimLen int
+}
+
+func (r *c05lRun) fail(s string) {
+	if r.bad == "" {
+		r.bad = "send " + strconv.Itoa(r.step) + ": " + s
+	}
+}
+
+func (r *c05lRun) sendMessage(buf []byte, m *protocol.UDPMessage) error {
+	idx := r.ncall
+	r.ncall++
+	n := m.Serialize(buf)
+	if n < 0 {
+		r.fail("message does not fit the send buffer")
+		return nil
+	}
+	if idx == 0 {
+		if m.SessionID != r.sid || m.Addr != r.addr || !bytes.Equal(m.Data, r.data) || m.FragID != 0 || m.FragCount != 1 {
+			r.fail("first SendMessage call is not the whole message")
+		}
+		if n > r.lim {
+			return &quic.DatagramTooLargeError{MaxDatagramPayloadSize: int64(r.lim)}
+		}
+		r.fail("harness: the message fits the limit whole")
+		return nil
+	}
+	if idx == 1 {
+		r.pid, r.cnt = m.PacketID, int(m.FragCount)
+	}
+	if m.SessionID != r.sid || m.Addr != r.addr || m.PacketID != r.pid || int(m.FragCount) != r.cnt || int(m.FragID) != r.next {
+		r.fail("fragment header wrong (session/address/packet id/count/fragment id)")
+	}
+	r.next++
+	if n > r.lim {
+		r.fail("fragment of " + strconv.Itoa(n) + " bytes exceeds the limit " + strconv.Itoa(r.lim))
+	}
+	if len(m.Data) == 0 {
+		r.fail("empty fragment")
+	}
+	r.cat = append(r.cat, m.Data...)
+	// far side, over the wire
+	wire := append([]byte(nil), buf[:n]...)
+	pm, perr := protocol.ParseUDPMessage(wire)
+	if perr != nil {
+		r.fail("far side cannot parse an accepted datagram")
+		return nil
+	}
+	pm2 := *pm
+	if o := r.far.Feed(pm); o != nil {
+		r.emitted++
+		if o.SessionID != r.sid || o.Addr != r.addr || !bytes.Equal(o.Data, r.data) {
+			r.fail("far side reassembled a message that was not sent")
+		}
+	}
+	if r.cnt > 0 && int(pm2.FragID) == r.step%r.cnt {
+		if o := r.lossy.Feed(&pm2); o != nil {
+			// no message ever has all its fragments delivered on this channel
+			if r.chim == 0 {
+				r.chimAt, r.chimLen = r.step, len(o.Data)
+			}
+			r.chim++
+		}
+	}
+	return nil
+}
+
+// c05lBinomTail: upper bound (n*p)^t/t! of P(Binomial(n,p) >= t), p = 1/65535
+func c05lBinomTail(n, t int) float64 {
+	x := 1.0
+	for k := 1; k <= t; k++ {
+		x *= float64(n) / 65535.0 / float64(k)
+	}
+	return x
+}
+
+func c05sRunLong(raw json.RawMessage, io *c05sIO, send func(i int, data []byte, addr string) error, res map[string]any) {
+	var c c05lCase
+	if err := json.Unmarshal(raw, &c); err != nil {
+		panic(err)
+	}
+	run := &c05lRun{sid: c.Sid, lim: c.L, far: &frag.Defragger{}, lossy: &frag.Defragger{}}
+	io.long = run
+	run.addr = string(vGenData(c.Aa, c.Ab, c.Al))
+	ids := make([]uint16, 0, c.N)
+	cnts := make([]uint8, 0, c.N)
+	lostByRepeat := 0
+	panicked := ""
+	for i := 0; i < c.N; i++ {
+		dl := c.Dls[i%len(c.Dls)]
+		run.data = vGenData(c.Da+uint64(i), c.Db+uint64(i>>8), dl)
+		run.step, run.ncall, run.next, run.cnt, run.pid, run.emitted = i, 0, 0, 0, 0, 0
+		run.cat = run.cat[:0]
+		var err error
+		p, pmsg := vCatch(func() { err = send(i, append([]byte(nil), run.data...), run.addr) })
+		if p {
+			panicked = "send " + strconv.Itoa(i) + ": panic in the send path: " + pmsg
+			break
+		}
+		if err != nil {
+			run.fail("send returned an error although the channel took every fragment")
+		}
+		if run.ncall < 3 {
+			run.fail("message was not fragmented after the too-large refusal (" + strconv.Itoa(run.ncall) + " calls)")
+			break
+		}
+		if run.next != run.cnt || !bytes.Equal(run.cat, run.data) {
+			run.fail("fragments do not concatenate to the payload / not all were sent")
+		}
+		repeat := len(ids) > 0 && ids[len(ids)-1] == run.pid && int(cnts[len(cnts)-1]) == run.cnt
+		if run.emitted != 1 {
+			if repeat && run.emitted == 0 {
+				lostByRepeat++ // same id and count as the message before: the far side ignores it (hypothesis of the property)
+			} else {
+				run.fail("lossless far side returned the message " + strconv.Itoa(run.emitted) + " times")
+			}
+		}
+		ids = append(ids, run.pid)
+		cnts = append(cnts, uint8(run.cnt))
+	}
+	io.long = nil
+	n := len(ids)
+	W := c.W
+	// --- id statistics
+	zeros, firstZero := 0, -1
+	lags := make([]int, W) // lags[d] = #{i : ids[i] == ids[i+d]}, 1 <= d < W
+	firstI, firstJ := -1, -1
+	for i := 0; i < n; i++ {
+		if ids[i] == 0 {
+			if zeros == 0 {
+				firstZero = i
+			}
+			zeros++
+		}
+		for d := 1; d < W && i+d < n; d++ {
+			if ids[i] == ids[i+d] {
+				lags[d]++
+				if firstI < 0 || i+d < firstJ {
+					firstI, firstJ = i, i+d
+				}
+			}
+		}
+	}
+	win, maxLag, maxLagD := 0, 0, 0
+	for d := 1; d < W; d++ {
+		win += lags[d]
+		if lags[d] > maxLag {
+			maxLag, maxLagD = lags[d], d
+		}
+	}
+	// cyclic? distance to the previous occurrence of the same id
+	prev := make(map[uint16]int, 65536)
+	dist := make(map[int]int)
+	for i := 0; i < n; i++ {
+		if j, ok := prev[ids[i]]; ok {
+			dist[i-j]++
+		}
+		prev[ids[i]] = i
+	}
+	period, periodHits := 0, 0
+	for p, h := range dist {
+		if n-p >= 256 && 10*h >= 9*(n-p) && (period == 0 || p < period) {
+			period, periodHits = p, h
+		}
+	}
+	// sample of the sequence: around the first repeat within the horizon, else the head
+	lo, hi := 0, c.Sample
+	if firstI >= 0 {
+		lo, hi = firstI-4, firstJ+5
+	}
+	if lo < 0 {
+		lo = 0
+	}
+	if hi > n {
+		hi = n
+	}
+	sample := make([]int, 0, hi-lo)
+	for i := lo; i < hi; i++ {
+		sample = append(sample, int(ids[i]))
+	}
+	idb := make([]byte, 0, 2*n)
+	for _, x := range ids {
+		idb = append(idb, byte(x>>8), byte(x))
+	}
+	lagsOut := lags[1:]
+	res["n"], res["w"], res["zeros"], res["lags"], res["win"] = n, W, zeros, lagsOut, win
+	res["period"], res["period_hits"] = period, periodHits
+	res["sample"], res["sample_at"] = sample, lo
+	res["first_repeat"] = []int{firstI, firstJ}
+	res["ids_digest"] = vDigest(idb)
+	res["chimeras"], res["lost_by_repeat"] = run.chim, lostByRepeat
+	res["fa_bound"] = float64(W-1) * c05lBinomTail(n, c.Thr)
+	ok, why := true, ""
+	switch {
+	case panicked != "":
+		ok, why = false, panicked
+	case run.bad != "":
+		ok, why = false, run.bad
+	case n != c.N:
+		ok, why = false, "history ended early"
+	case zeros > 0:
+		ok, why = false, "fragmented message "+strconv.Itoa(firstZero)+" of the history carries packet id 0 (the id of unfragmented messages); "+
+			strconv.Itoa(zeros)+" of "+strconv.Itoa(n)
+	case maxLag >= c.Thr:
+		ok, why = false, "packet ids are not fresh: "+strconv.Itoa(maxLag)+" of "+strconv.Itoa(n)+" fragmented messages carry the same id as the message "+
+			strconv.Itoa(maxLagD)+" send(s) earlier (uniform random ids reach "+strconv.Itoa(c.Thr)+" with probability < 1e-9); first: sends "+
+			strconv.Itoa(firstI)+" and "+strconv.Itoa(firstJ)+" both carry id "+strconv.Itoa(int(ids[firstI]))
+	case period > 0 && win > 0:
+		ok, why = false, "packet ids come from a cyclic generator (the id sequence repeats with period "+strconv.Itoa(period)+", "+
+			strconv.Itoa(periodHits)+" of "+strconv.Itoa(n-period)+" positions) and sends "+strconv.Itoa(firstI)+" and "+strconv.Itoa(firstJ)+
+			" of one session, "+strconv.Itoa(firstJ-firstI)+" apart (horizon "+strconv.Itoa(W)+"), both carry packet id "+strconv.Itoa(int(ids[firstI]))+
+			": a repeat that recurs every cycle, not a chance collision"
+		if run.chim > 0 {
+			why += "; with complementary fragment loss the far side's Defragger returned " + strconv.Itoa(run.chim) +
+				" payload(s) that were never sent (first at send " + strconv.Itoa(run.chimAt) + ", " + strconv.Itoa(run.chimLen) + " bytes)"
+		}
+	}
 	res["ok"] = ok
 	res["why"] = why
 }
